@@ -284,9 +284,20 @@ def execute(case, ctx, cls=None, extra_kwargs=None, after_create=None):
         tkw = dict(term)
         if kind.endswith('remote'):
             tkw.setdefault('remote_timeout', tkw['timeout'])
-        if mode == 'terminate' or mode == 'terminate_now':
+        if mode in ('terminate', 'terminate_now', 'terminate_finished'):
             if mode == 'terminate':
                 obs['reached'] = inject.wait_reached(name, 3.0)
+            elif mode == 'terminate_finished':
+                # the target ends on its own; its end is observed without touching the worker's own bookkeeping
+                t_end = time.monotonic() + 15
+                if kind.endswith('thread') or kind.endswith('remote'):
+                    th = getattr(w, '_child', None)
+                    while th is not None and th.is_alive() and time.monotonic() < t_end:
+                        time.sleep(0.003)
+                else:
+                    while pid_alive(w.pid) and time.monotonic() < t_end:
+                        time.sleep(0.003)
+                time.sleep(0.02)
             elif case.get('settle'):
                 time.sleep(case['settle'])
             t0 = time.monotonic()
